@@ -68,7 +68,7 @@ def Cfg.imgLen (c : Cfg) : Nat :=
     the second word of the application passes the test and no earlier probed offset (they lie in the DCD / XMCD / zero
     fill in front of the application, which do not depend on the application) does -/
 def AppVisible (c : Cfg) (app : Bytes) : Prop :=
-  8 ≤ app.length ∧ vectorOk c.entry c.imgLen (leDec (slice app 4 4)) = true ∧
+  c.appOff ∈ HabConsts.knownAppOffsets ∧ 8 ≤ app.length ∧ vectorOk c.entry c.imgLen (leDec (slice app 4 4)) = true ∧
   ∀ o ∈ HabConsts.knownAppOffsets, o < c.appOff →
     vectorOk c.entry c.imgLen (leDec (slice (image c [] none) (o + 4) 4)) = false
 
